@@ -25,15 +25,15 @@ import (
 )
 
 type Clause struct {
-	Loc   *Node  // onwrite: the watched location
-	Kind  string // requires ensures invariant modifies assume
-	Label string
-	Text  string
-	Expr  *Node
-	Line  int
-	File  string
-	Props []string // optional clause-level restriction
-	NoCover bool   // label ended in "?": the antecedent may be unreachable for some functions (contract templates)
+	Loc     *Node  // onwrite: the watched location
+	Kind    string // requires ensures invariant modifies assume
+	Label   string
+	Text    string
+	Expr    *Node
+	Line    int
+	File    string
+	Props   []string // optional clause-level restriction
+	NoCover bool     // label ended in "?": the antecedent may be unreachable for some functions (contract templates)
 }
 
 type LoopSpec struct {
@@ -121,6 +121,16 @@ type SpecDB struct {
 	UFuncs   map[string]*UFunc
 	PoolInvs map[string]*Clause // type string -> invariant over `it` of pooled objects
 	Autos    []*AutoSpec        // contract templates applied to every function that calls a given function
+	Orders   []*GuardSpec       // "lockorder OUTER INNER": Global = OUTER, Mutex = INNER
+	Guards   []*GuardSpec       // "guarded G by M {props}": package variable G is only accessed while holding mutex M
+}
+
+type GuardSpec struct {
+	Pkg, Global, Mutex string
+	ReadersAlso        string
+	Props              []string
+	File               string
+	Line               int
 }
 
 // AutoSpec: "//@ autofunc calls KEY" — the clauses that follow are given to every function of the loaded packages
@@ -150,7 +160,7 @@ func newSpecDB0() *SpecDB {
 
 var clauseKw = map[string]bool{"requires": true, "ensures": true, "modifies": true, "panics": true, "props": true,
 	"loop": true, "invariant": true, "pure": true, "stable": true, "assumed": true, "concurrent": true, "noinline": true, "unroll": true, "let": true, "decreases": true, "witness": true, "replay": true, "case": true, "use": true, "objinv": true, "sets": true, "shared": true, "onwrite": true, "always": true}
-var topKw = map[string]bool{"poolinv": true, "ilemma": true, "func": true, "extern": true, "autofunc": true, "iface": true, "callback": true, "ghost": true, "spec": true, "lemma": true}
+var topKw = map[string]bool{"poolinv": true, "ilemma": true, "func": true, "extern": true, "autofunc": true, "guarded": true, "lockorder": true, "iface": true, "callback": true, "ghost": true, "spec": true, "lemma": true}
 
 func firstWord(s string) (string, string) {
 	s = strings.TrimSpace(s)
@@ -292,6 +302,38 @@ func (db *SpecDB) loadFile(path, pkgPath string) error {
 			}
 			db.Lemmas = append(db.Lemmas, lm)
 			cur, curLemma = nil, lm
+		case "lockorder":
+			// lockorder OUTER INNER {props}: INNER may be acquired while holding OUTER, never the other way round
+			r := strings.TrimSpace(rest)
+			var props []string
+			if k := strings.Index(r, "{"); k >= 0 {
+				_, props, _ = parseLabel(r[k:])
+				r = strings.TrimSpace(r[:k])
+			}
+			f := strings.Fields(r)
+			if len(f) != 2 {
+				return fail("lockorder OUTER INNER {props}")
+			}
+			db.Orders = append(db.Orders, &GuardSpec{Pkg: pkgPath, Global: f[0], Mutex: f[1], Props: props, File: path, Line: it.line})
+			cur = nil
+		case "guarded":
+			// guarded G by M {C15}
+			r := strings.TrimSpace(rest)
+			var props []string
+			if k := strings.Index(r, "{"); k >= 0 {
+				_, props, _ = parseLabel(r[k:])
+				r = strings.TrimSpace(r[:k])
+			}
+			f := strings.Fields(r)
+			if !(len(f) == 3 || (len(f) == 5 && f[3] == "readers-also")) || f[1] != "by" {
+				return fail("guarded GLOBAL by MUTEX [readers-also MUTEX2] {props}")
+			}
+			gs := &GuardSpec{Pkg: pkgPath, Global: f[0], Mutex: f[2], Props: props, File: path, Line: it.line}
+			if len(f) == 5 {
+				gs.ReadersAlso = f[4] // every writer also holds this (exclusive) lock, so holding it is enough to read
+			}
+			db.Guards = append(db.Guards, gs)
+			cur = nil
 		case "autofunc":
 			f := strings.Fields(rest)
 			if len(f) != 2 || f[0] != "calls" {
